@@ -9,17 +9,17 @@ Open Scope Z_scope.
 
 (* ---- same total size; an error writes nothing ---- *)
 
-Theorem C02_same_size : forall dec enc u2s s2u nvar fx d ops img out,
-  edit_and_save dec enc u2s s2u nvar fx d ops img = Ok out -> zlen out = zlen img.
+Theorem C02_same_size : forall dec enc u2s s2u nvar d ops img out,
+  edit_and_save dec enc u2s s2u nvar d ops img = Ok out -> zlen out = zlen img.
 Proof. exact edit_and_save_size. Qed.
 Print Assumptions C02_same_size.
 
 (* save = assemble, then write: when an operation fails the run ends with that error and no bytes *)
-Theorem C02_error_no_output : forall dec enc u2s s2u nvar fx d ops img cops pol0 elems pol e,
+Theorem C02_error_no_output : forall dec enc u2s s2u nvar d ops img cops pol0 elems pol e,
   parse_cli dec u2s nvar d 240 ops = Ok (cops, pol0) ->
   parse_bios dec u2s nvar d (Z.to_nat (zlen img) + 1) pol0 img 0 = Ok (elems, pol) ->
   run_ops d pol cops elems = Err e ->
-  edit_and_save dec enc u2s s2u nvar fx d ops img = Err e.
+  edit_and_save dec enc u2s s2u nvar d ops img = Err e.
 Proof. exact edit_error_no_output. Qed.
 Print Assumptions C02_error_no_output.
 
@@ -54,9 +54,9 @@ Proof. exact place_files_nospace. Qed.
 Print Assumptions C02_nospace.
 
 (* a rebuilt non-resizable volume has exactly Length bytes and keeps its Length *)
-Theorem C02_volume_length : forall fx pol ffs3 h buf files h' b,
-  asm_vol_v fx pol ffs3 h buf files = Ok (h', b) ->
-  vol_verbatim fx h files = false -> v_resizable h = false ->
+Theorem C02_volume_length : forall pol ffs3 h buf files h' b,
+  asm_vol pol ffs3 h buf files = Ok (h', b) ->
+  vol_verbatim h files = false -> v_resizable h = false ->
   zlen b = v_length h /\ v_length h' = v_length h.
 Proof. exact asm_vol_v_len. Qed.
 Print Assumptions C02_volume_length.
@@ -65,9 +65,9 @@ Print Assumptions C02_volume_length.
    Length is kept or, when the files need more, grows to the next block boundary, and the first
    block-map entry is updated with it (Go's Align is a bit mask: equal to rounding up exactly for
    powers of two, lemma align_go_pow2) *)
-Theorem C02_volume_length_resizable : forall fx pol ffs3 h buf files h' b c k rest,
-  asm_vol_v fx pol ffs3 h buf files = Ok (h', b) ->
-  vol_verbatim fx h files = false -> v_resizable h = true ->
+Theorem C02_volume_length_resizable : forall pol ffs3 h buf files h' b c k rest,
+  asm_vol pol ffs3 h buf files = Ok (h', b) ->
+  vol_verbatim h files = false -> v_resizable h = true ->
   v_blocks h = (c, 2 ^ k) :: rest -> 0 <= k < 64 -> 0 <= v_dataoff h ->
   end_of (v_dataoff h) files + 2 ^ k <= 2 ^ 64 ->
   zlen b = v_length h' /\
@@ -79,11 +79,11 @@ Print Assumptions C02_volume_length_resizable.
 
 (* asm_fv_nospace at the volume: the rebuild of a non-resizable volume fails when a file would end
    beyond its Length (the error, not a truncated or overlapping volume) *)
-Theorem C02_volume_nospace : forall fx pol ffs3 h buf files,
-  vol_verbatim fx h files = false -> v_resizable h = false -> 0 <= v_dataoff h ->
+Theorem C02_volume_nospace : forall pol ffs3 h buf files,
+  vol_verbatim h files = false -> v_resizable h = false -> 0 <= v_dataoff h ->
   (exists k f s, nth_error files k = Some f /\ nth_error (file_starts (v_dataoff h) files) k = Some s /\
                  v_length h < s + zlen (node_buf f)) ->
-  is_ok (asm_vol_v fx pol ffs3 h buf files) = false.
+  is_ok (asm_vol pol ffs3 h buf files) = false.
 Proof. exact asm_vol_v_nospace. Qed.
 Print Assumptions C02_volume_nospace.
 
@@ -107,9 +107,9 @@ Proof. exact pad_file_valid. Qed.
 Print Assumptions C02_pad_file_valid.
 
 (* the 16-bit sum of a rebuilt volume's header is zero *)
-Theorem C02_volume_header_checksum : forall fx pol ffs3 h buf files h' b,
-  asm_vol_v fx pol ffs3 h buf files = Ok (h', b) ->
-  vol_verbatim fx h files = false -> v_resizable h = false -> 52 <= v_hdrlen h ->
+Theorem C02_volume_header_checksum : forall pol ffs3 h buf files h' b,
+  asm_vol pol ffs3 h buf files = Ok (h', b) ->
+  vol_verbatim h files = false -> v_resizable h = false -> 52 <= v_hdrlen h ->
   sum16 (sub 0 (v_hdrlen h) b) = 0.
 Proof. exact asm_vol_hdr_cksum. Qed.
 Print Assumptions C02_volume_header_checksum.
@@ -119,7 +119,7 @@ Print Assumptions C02_volume_header_checksum.
 (* C02_valid_after_edits (the goal; NOT proved):
 
      forall img ops out, valid_image d img = true ->
-       edit_and_save dec enc u2s s2u nvar true d ops img = Ok out ->
+       edit_and_save dec enc u2s s2u nvar d ops img = Ok out ->
        valid_image d out = true /\ zlen out = zlen img.
 
    Proved below is its volume-assembly core, C02_valid_after_edits_partial: when Assemble rebuilds
@@ -137,9 +137,9 @@ Print Assumptions C02_volume_header_checksum.
    (C02_volume_length_resizable, power-of-two block sizes), not the file walk; (4) the composition
    section -> file -> nested volume -> region ([v_region] over copy_elems) and the fuel of valid_fv.
    These are covered on the implementation by the oracle p_c02 only. *)
-Theorem C02_valid_after_edits_partial : forall vfv fx pol ffs3 h buf files h' b,
-  asm_vol_v fx pol ffs3 h buf files = Ok (h', b) ->
-  vol_verbatim fx h files = false -> v_resizable h = false ->
+Theorem C02_valid_after_edits_partial : forall vfv pol ffs3 h buf files h' b,
+  asm_vol pol ffs3 h buf files = Ok (h', b) ->
+  vol_verbatim h files = false -> v_resizable h = false ->
   60 <= v_dataoff h -> v_dataoff h mod 8 = 0 -> 52 <= v_hdrlen h ->
   (pol = 0 \/ pol = 255) -> v_length h < 2 ^ 64 ->
   Forall (fun f => fok vfv pol (node_buf f) = true /\ rd 19 1 (node_buf f) = node_attr f) files ->
@@ -159,7 +159,7 @@ Definition id_bytes (b : bytes) : bytes := b.
 Definition tiny_image : bytes := [0; 0; 0; 0; 0; 0; 0; 0; 0; 0; 0; 0; 0; 0; 0; 0; 120; 229; 140; 140; 61; 138; 28; 79; 153; 53; 137; 97; 133; 195; 45; 211; 192; 0; 0; 0; 0; 0; 0; 0; 95; 70; 86; 72; 0; 8; 0; 0; 72; 0; 207; 236; 0; 0; 0; 2; 3; 0; 0; 0; 64; 0; 0; 0; 0; 0; 0; 0; 0; 0; 0; 0; 1; 0; 0; 0; 0; 171; 0; 0; 0; 0; 0; 0; 0; 0; 0; 119; 1; 170; 192; 0; 28; 0; 0; 248; 1; 2; 3; 4; 255; 255; 255; 255; 255; 255; 255; 255; 255; 255; 255; 255; 255; 255; 255; 255; 255; 255; 255; 255; 255; 255; 255; 255; 255; 255; 255; 255; 255; 255; 255; 255; 255; 255; 255; 255; 255; 255; 255; 255; 255; 255; 255; 255; 255; 255; 255; 255; 255; 255; 255; 255; 255; 255; 255; 255; 255; 255; 255; 255; 255; 255; 255; 255; 255; 255; 255; 255; 255; 255; 255; 255; 255; 255; 255; 255; 255; 255; 255; 255; 255; 255; 255; 255; 255; 255; 255; 255; 255; 255; 255; 255].
 Definition tiny_guid : bytes := [1; 0; 0; 0; 0; 171; 0; 0; 0; 0; 0; 0; 0; 0; 0; 119].
 Definition save_of (ops : list op) : outcome bytes :=
-  edit_and_save no_codec no_codec id_bytes id_bytes no_nvar true 8 ops tiny_image.
+  edit_and_save no_codec no_codec id_bytes id_bytes no_nvar 8 ops tiny_image.
 Definition valid_out (o : outcome bytes) : bool :=
   match o with Ok out => valid_image 8 out && (zlen out =? zlen tiny_image) | _ => false end.
 
